@@ -220,6 +220,23 @@ func genLog(r *kit.Rng, class string, tier string) *logScenario {
 	if ls.WLogToo {
 		mk(true)
 	}
+	// single-event reads in the middle of the appends: offsets appended so far (still there after
+	// the later appends?) and one appended later (nothing yet; on cached backends its absence is cached)
+	if class != "dense" && len(ls.Events) >= 4 && r.Chance(2, 3) {
+		ls.MidAt = len(ls.Events) / 2
+		for i := 0; i < 3; i++ {
+			e := ls.Events[r.Intn(ls.MidAt)]
+			ls.MidReads = append(ls.MidReads, &readSpec{WLog: false, ID: uint64(e.Part), Off: e.POff, Count: 1})
+			if ls.WLogToo && i == 0 {
+				ls.MidReads = append(ls.MidReads, &readSpec{WLog: true, ID: e.WS, Off: e.WOff, Count: 1})
+			}
+		}
+		later := ls.Events[ls.MidAt+r.Intn(len(ls.Events)-ls.MidAt)]
+		ls.MidReads = append(ls.MidReads, &readSpec{WLog: false, ID: uint64(later.Part), Off: later.POff, Count: 1})
+		if ls.WLogToo {
+			ls.MidReads = append(ls.MidReads, &readSpec{WLog: true, ID: later.WS, Off: later.WOff, Count: 1})
+		}
+	}
 	return ls
 }
 
@@ -301,7 +318,7 @@ func Generate(seed uint64, n int, tier string, corpusDir string, shard int, out 
 	}
 	for i := 0; i < n; i++ {
 		cr := r.Fork()
-		sc := &scenario{Backend: backends[i%len(backends)]}
+		sc := &scenario{Backend: backends[i%len(backends)], PLogCacheOff: (i/6)%2 == 1}
 		switch m := i % 10; {
 		case i == 3:
 			sc.Backend = "mem"
@@ -358,6 +375,9 @@ func nontrivial(sc *scenario) bool {
 func shapeKey(sc *scenario) string {
 	var sb strings.Builder
 	sb.WriteString(sc.Backend)
+	if sc.PLogCacheOff {
+		sb.WriteString("-nocache")
+	}
 	if sc.Codec != nil {
 		fmt.Fprintf(&sb, "|codec:%s:%d:%d:%d", sc.Codec.Event.Shape, sc.Codec.Event.Seed, sc.Codec.Event.Part, sc.Codec.Event.POff)
 		return sb.String()
@@ -367,6 +387,9 @@ func shapeKey(sc *scenario) string {
 		if e.Shape != "none" {
 			fmt.Fprintf(&sb, "|%s@%d", e.Shape, e.POff)
 		}
+	}
+	for _, rd := range sc.Log.MidReads {
+		fmt.Fprintf(&sb, "|M%v:%d", rd.WLog, rd.Off)
 	}
 	for _, rd := range sc.Log.Reads {
 		fmt.Fprintf(&sb, "|R%v:%d:%d", rd.WLog, rd.Off, rd.Count)
